@@ -1036,7 +1036,7 @@ func c14r2(c *Check) {
 		for _, fn := range samePkgCallees(c.P, entry) {
 			fn := fn
 			// guardBefore: in f, a test `len(dests) REL k` whose continuing edge establishes len > 0 dominates the call
-			guardBefore := func(f *ssa.Function, call *ssa.Call, dests ssa.Value, bind map[*ssa.Parameter]ssa.Value) bool {
+			guardBefore := func(f *ssa.Function, call ssa.Instruction, dests ssa.Value, bind map[*ssa.Parameter]ssa.Value) bool {
 				for _, b := range f.Blocks {
 					ifi, ok := b.Instrs[len(b.Instrs)-1].(*ssa.If)
 					if !ok {
@@ -1069,7 +1069,7 @@ func c14r2(c *Check) {
 				}
 				if calleeName(call.Common()) == nCH {
 					nSites++
-					if guardBefore(fn, call, call.Call.Args[2], nil) {
+					if guardBefore(fn, call, call.Call.Args[2], nil) || guardedByParsingHelper(fn, call, call.Call.Args[2], guardBefore) {
 						nGuarded++
 					}
 					return
@@ -1736,4 +1736,85 @@ func minDestsGuard(p *Prog, entry *ssa.Function) bool {
 	}
 	visit(entry, env{}, 0)
 	return found
+}
+
+// guardedByParsingHelper: the destination list handed to the constructor at `at` is a result of a module helper that
+// also returns an error (dests, err := parseRouteDestinations(cfg, table, false, 2)); `at` is reached only over the
+// no-error edge of a test of that error; and inside the helper every return that can carry a nil error returns a list
+// whose length was compared — with a constant, or with a parameter that is a constant at this call site — on an edge
+// that establishes len > 0. The guard then holds at `at` exactly as if it were written in front of the constructor.
+func guardedByParsingHelper(fn *ssa.Function, at ssa.Instruction, dests ssa.Value, guardBefore func(f *ssa.Function, at ssa.Instruction, dests ssa.Value, bind map[*ssa.Parameter]ssa.Value) bool) bool {
+	ex, ok := dests.(*ssa.Extract)
+	if !ok {
+		return false
+	}
+	hc, ok := ex.Tuple.(*ssa.Call)
+	if !ok {
+		return false
+	}
+	g := hc.Call.StaticCallee()
+	if g == nil || g.Blocks == nil || !ModuleFunc(g) || hc.Call.IsInvoke() {
+		return false
+	}
+	res := g.Signature.Results()
+	errIdx := res.Len() - 1
+	if errIdx < 1 || ex.Index == errIdx || !types.Identical(res.At(errIdx).Type(), errorType) {
+		return false
+	}
+	// the caller continues to `at` only when the helper reported no error
+	onNoErr := false
+	for _, r := range *hc.Referrers() {
+		ev, ok := r.(*ssa.Extract)
+		if !ok || ev.Index != errIdx {
+			continue
+		}
+		for _, b := range fn.Blocks {
+			ifi, ok := b.Instrs[len(b.Instrs)-1].(*ssa.If)
+			if !ok {
+				continue
+			}
+			e, errEdge, ok := errTest(ifi.Cond)
+			if !ok || e != ssa.Value(ev) {
+				continue
+			}
+			si := 0
+			if errEdge {
+				si = 1
+			}
+			if edgeDominates(b, b.Succs[si], at.Block()) {
+				onNoErr = true
+			}
+		}
+	}
+	if !onNoErr {
+		return false
+	}
+	bind := map[*ssa.Parameter]ssa.Value{}
+	for i, a := range hc.Call.Args {
+		if i < len(g.Params) {
+			bind[g.Params[i]] = a
+		}
+	}
+	n, okAll := 0, true
+	allInstrs(g, func(in ssa.Instruction) {
+		ret, ok := in.(*ssa.Return)
+		if !ok || len(ret.Results) != res.Len() {
+			return
+		}
+		last := ret.Results[errIdx]
+		if _, isMI := last.(*ssa.MakeInterface); isMI {
+			return // a concrete error value: non-nil
+		}
+		if call, isCall := last.(*ssa.Call); isCall {
+			switch calleeName(call.Common()) {
+			case "errors.New", "fmt.Errorf":
+				return
+			}
+		}
+		n++
+		if !guardBefore(g, ret, ret.Results[ex.Index], bind) {
+			okAll = false
+		}
+	})
+	return okAll && n > 0
 }
